@@ -25,7 +25,8 @@ func runC02(c *an.Ctx) {
 	c.Explanation = "A1 order (whole program) + A11 siblings: over every repository function reachable from block execution (LedgerStoreImp.executeBlock and the three transaction handlers) in the refined call graph, restricted to packages in the import closure of core/store/ledgerstore, " +
 		"(1) every loop that ranges over a Go map is commutative, collect-then-sort or an exists-failure exit — so neither the write set, nor the event list, nor results depend on map iteration order; " +
 		"(2) no wall-clock, unseeded random, environment or host input is read (constant-seeded PRNGs and tracer timing that flows only to the EVM tracer are recognised structurally); (3) no goroutine is started and no channel is used on the execution path (results cannot depend on the schedule); " +
-		"(4) the block's state hash is the overlay's ChangeHash of the executed write set; (5) the signer set contracts see is derived in the same way by the validator and by the sealed-block fallback (shared with C17). " +
+		"(4) the block's state hash is the overlay's ChangeHash of the executed write set; (5) the signer set contracts see is derived in the same way by the validator and by the sealed-block fallback (shared with C17); " +
+		"(6) block execution - which also runs on candidate blocks that are never committed - writes no field of the long-lived store objects, and re-reads the global parameters for every block above genesis, before its first transaction, through a fresh overlay of the committed state: the result is a function of the block and the committed chain, not of what this process executed before. " +
 		"Decides these structural necessary conditions for all block sequences; equality of results as values is not decided."
 	c.Assumptions = append(c.Assumptions,
 		"repository packages outside the import closure of core/store/ledgerstore are not called from block execution (their values cannot be constructed by execution code; the ledger's callers inject none on this path)",
@@ -137,6 +138,9 @@ func runC02(c *an.Ctx) {
 
 	// (5) validator vs sealed-block signer derivation
 	signedAddrRule(c)
+
+	// (6) execution reads the block and the committed state only
+	executionInputsRule(c, fns)
 }
 
 // goroutine/channel sites decided by reading
